@@ -183,6 +183,20 @@ func c10(repo string, out *fg.Out) error {
 	if !strings.Contains(body, "Scan(&rowsBefore, &rowsAfter)") {
 		return fmt.Errorf("rewriteFileWithoutDeletedRows: `Scan(&rowsBefore, &rowsAfter)` not found (column order total, remaining)")
 	}
+	// the pairing of DuckDB's reported filename with the storage-relative path (whole-file removal
+	// deletes by relativePath): exact lookup keyed by the full query path.
+	fdb, _ := get("countMatchingRowsInFiles")
+	bb := norm(f.Text(fdb.Body))
+	for _, want := range []string{"pathMap[f.queryPath] = f.relativePath", "relativePath, ok := pathMap[filename]",
+		"path: filename,", "relativePath: relativePath,", "matchCount: count,"} {
+		if !strings.Contains(bb, want) {
+			return fmt.Errorf("countMatchingRowsInFiles: `%s` not found (filename -> relativePath pairing changed)", want)
+		}
+	}
+	fdr, _ := get("rewriteFileWithoutDeletedRows")
+	if !strings.Contains(norm(f.Text(fdr.Body)), "h.storage.Delete(ctx, relativePath)") {
+		return fmt.Errorf("rewriteFileWithoutDeletedRows: `h.storage.Delete(ctx, relativePath)` not found")
+	}
 	fd2, _ := get("countMatchingRowsIndividually")
 	if !strings.Contains(norm(f.Text(fd2.Body)), "if count > 0 {") {
 		return fmt.Errorf("countMatchingRowsIndividually: `if count > 0 {` not found")
